@@ -294,12 +294,11 @@ Section Levels.
 
   (* the other function is a plain function *)
   Lemma meets_does_same : forall go,
-    c_named (cx_callee cx COther) = true ->
     plain_function (cx_callee cx CFunc) = true ->
     sync_function (cx_callee cx COther) = true -> behaves_as go (cx_callee cx COther) ->
     behaves_as (spec_apply NDoesSame cx go g) (as_callee d_does_same_as_function cx).
   Proof.
-    intros go Hno Hp Hs Ho. unfold sync_function in Hs. apply andb_true_iff in Hs as [Hio Hmo].
+    intros go Hp Hs Ho. unfold sync_function in Hs. apply andb_true_iff in Hs as [Hio Hmo].
     apply negb_true_iff in Hio. apply negb_true_iff in Hmo. unfold plain_function in Hp. apply eqb_prop in Hp.
     unfold spec_apply, spec_does_same.
     assert (Hcall : forall a k s, exists w, do_call cx COther a k false s = (fst (go a k (cs s)), Build_st (snd (go a k (cs s))) w))
@@ -319,13 +318,12 @@ Section Levels.
 
   (* both are coroutine functions *)
   Lemma meets_does_same_async : forall go,
-    c_named (cx_callee cx COther) = true ->
     c_iscoro (cx_callee cx CFunc) = true ->
     c_iscoro (cx_callee cx COther) = true -> c_mode (cx_callee cx COther) = true ->
     (forall a k s, exists w, do_call cx COther a k true s = (fst (go a k (cs s)), Build_st (snd (go a k (cs s))) w)) ->
     behaves_as (spec_apply NDoesSame cx go g) (as_callee d_does_same_as_function cx).
   Proof.
-    intros go Hno Hif Hio Hmo Hcall. unfold spec_apply, spec_does_same.
+    intros go Hif Hio Hmo Hcall. unfold spec_apply, spec_does_same.
     enter Hwu; try discriminate Hif.
     async_variant.
     repeat first [progress wnorm | progress rw_mode | fmt_ok Hrepr | call_full Hf
@@ -358,10 +356,9 @@ Proof.
 Qed.
 
 Lemma unimplemented_never_calls : forall Sigma (cx : ctx Sigma) a k s,
-  c_named (cx_callee cx CFunc) = true ->
   use_wrapped d_unimplemented cx a k s = (RExc NotImplementedExceptionC (XFresh 4), s).
 Proof.
-  intros Sigma cx a k s Hn. unfold use_wrapped, use_callee, as_callee. wnorm. rw_mode. wnorm.
+  intros Sigma cx a k s. unfold use_wrapped, use_callee, as_callee. wnorm.
   destruct (c_mode (cx_callee cx CFunc)); reflexivity.
 Qed.
 
@@ -375,10 +372,9 @@ Proof.
 Qed.
 
 Lemma meets_unimplemented : forall Sigma (cx : ctx Sigma) go g,
-  c_named (cx_callee cx CFunc) = true ->
   behaves_as (spec_apply NUnimplemented cx go g) (as_callee d_unimplemented cx).
 Proof.
-  intros Sigma cx go g Hn. unfold spec_apply, behaves_as, as_callee. cbn.
+  intros Sigma cx go g. unfold spec_apply, behaves_as, as_callee. cbn.
   destruct (c_mode (cx_callee cx CFunc)) eqn:Em; cbn.
   - intros a k [c0 w0]. wnorm. rw_mode. wnorm. eexists. left. repeat split.
   - intros a k [c0 w0]. wnorm. rw_mode. wnorm. eauto.
@@ -399,13 +395,15 @@ Qed.
 Section Stack.
   Variable Sigma : Type.
 
-  (* what every level needs: texts of values are harmless, and what is decorated has __name__ / __qualname__ *)
+  (* what a level needs beyond a well-behaved callee: harmless texts of values where the message formats them
+     (trace, trace_if_returns, does_same_as_function); a function object for require_kwargs (DecoratedFunction) *)
   Definition level_side (n : dname) (cx : ctx Sigma) (go : base Sigma) : Prop :=
-    repr_harmless cx /\ c_named (cx_callee cx CFunc) = true /\
     match n with
+    | NTrace | NTraceIfReturns => repr_harmless cx
     | NDeprecated => fops_safe false (cx_warn_prog cx) = true
-    | NDoesSame => c_named (cx_callee cx COther) = true /\ plain_function (cx_callee cx CFunc) = true
+    | NDoesSame => repr_harmless cx /\ plain_function (cx_callee cx CFunc) = true
                    /\ sync_function (cx_callee cx COther) = true /\ behaves_as go (cx_callee cx COther)
+    | NRequireKwargs => c_named (cx_callee cx CFunc) = true
     | NMock => plain_function (cx_callee cx CFunc) = true
     | _ => True
     end.
@@ -415,18 +413,18 @@ Section Stack.
     level_side n cx go ->
     behaves_as (spec_apply n cx go g) (as_callee (deco_of n) cx).
   Proof.
-    intros n cx go g Hwu Hsim (Hrepr & Hname & Hside). destruct n; cbn [deco_of].
-    - now apply meets_trace.
-    - now apply meets_timer.
-    - now apply meets_count_calls.
-    - now apply meets_deprecated.
-    - now apply meets_trace_if_returns.
-    - destruct Hside as (Hno & Hp & Hs & Ho). now apply meets_does_same.
-    - now apply meets_rename_kwargs.
-    - now apply meets_overrides.
-    - now apply meets_require_kwargs.
-    - now apply meets_mock.
-    - now apply meets_unimplemented.
+    intros n cx go g Hwu Hsim Hside. destruct n; cbn [deco_of]; cbn in Hside.
+    - apply meets_trace; assumption.
+    - apply meets_timer; assumption.
+    - apply meets_count_calls; assumption.
+    - apply meets_deprecated; assumption.
+    - apply meets_trace_if_returns; assumption.
+    - destruct Hside as (Hr & Hp & Hs & Ho). apply meets_does_same; assumption.
+    - apply meets_rename_kwargs; assumption.
+    - apply meets_overrides; assumption.
+    - apply meets_require_kwargs; assumption.
+    - apply meets_mock; assumption.
+    - apply meets_unimplemented; assumption.
   Qed.
 
   Lemma level_named : forall n (cx : ctx Sigma),
@@ -549,16 +547,18 @@ Section Counter.
     cnt_get me (ws_cnt (ws (snd (use_wrapped d_count_calls cx a k s)))) = (cnt_get me (ws_cnt (ws s)) + 1)%Z.
   Proof.
     intros a k [c0 w0]. unfold use_wrapped, use_callee, as_callee. wnorm.
-    destruct (c_named (cx_callee cx CFunc)) eqn:En; wnorm.
-    - unfold do_call.
-      match goal with |- context [c_call (cx_callee cx CFunc) ?a ?k ?s] =>
-        pose proof (Hcall CFunc a k s) as H1; destruct (c_call (cx_callee cx CFunc) a k s) as [r [c1 w1]] end.
-      cbn in H1. fold me in H1. rewrite cnt_get_set_same in H1.
-      destruct (c_mode (cx_callee cx CFunc)); destruct r; wnorm; try exact H1.
-      destruct (tok_args v) as [[a' k']|]; wnorm; try exact H1.
-      rewrite Hres. exact H1.
-    - (* no __name__: the message of the print fails, after the call was counted *)
-      destruct (c_mode (cx_callee cx CFunc)); wnorm; fold me; apply cnt_get_set_same.
+    (* whether or not the message reads the function's name (it may be missing: then the print fails, after the call
+       was counted) *)
+    destruct (c_named (cx_callee cx CFunc)) eqn:En; wnorm;
+    first
+    [ solve [ unfold do_call;
+              match goal with |- context [c_call (cx_callee cx CFunc) ?a ?k ?s] =>
+                pose proof (Hcall CFunc a k s) as H1; destruct (c_call (cx_callee cx CFunc) a k s) as [r [c1 w1]] end;
+              cbn in H1; fold me in H1; rewrite cnt_get_set_same in H1;
+              destruct (c_mode (cx_callee cx CFunc)); destruct r; wnorm; try exact H1;
+              destruct (tok_args v) as [[a' k']|]; wnorm; try exact H1;
+              rewrite Hres; exact H1 ]
+    | solve [ destruct (c_mode (cx_callee cx CFunc)); wnorm; fold me; apply cnt_get_set_same ] ].
   Qed.
 
   (* ... and it writes nobody else's *)
@@ -568,15 +568,16 @@ Section Counter.
     cnt_get id (ws_cnt (ws (snd (use_wrapped d_count_calls cx a k s)))) = cnt_get id (ws_cnt (ws s)).
   Proof.
     intros id a k [c0 w0] Hne Hc Hr. unfold use_wrapped, use_callee, as_callee. wnorm.
-    destruct (c_named (cx_callee cx CFunc)) eqn:En; wnorm.
-    - unfold do_call.
-      match goal with |- context [c_call (cx_callee cx CFunc) ?a ?k ?s] =>
-        pose proof (Hc CFunc a k s) as H1; destruct (c_call (cx_callee cx CFunc) a k s) as [r [c1 w1]] end.
-      cbn in H1. fold me in H1. rewrite cnt_get_set_other in H1 by (intro E; apply Hne; now rewrite E).
-      destruct (c_mode (cx_callee cx CFunc)); destruct r; wnorm; try exact H1.
-      destruct (tok_args v) as [[a' k']|]; wnorm; try exact H1.
-      rewrite Hr. exact H1.
-    - destruct (c_mode (cx_callee cx CFunc)); wnorm; fold me; apply cnt_get_set_other; intro E; apply Hne; now rewrite E.
+    destruct (c_named (cx_callee cx CFunc)) eqn:En; wnorm;
+    first
+    [ solve [ unfold do_call;
+              match goal with |- context [c_call (cx_callee cx CFunc) ?a ?k ?s] =>
+                pose proof (Hc CFunc a k s) as H1; destruct (c_call (cx_callee cx CFunc) a k s) as [r [c1 w1]] end;
+              cbn in H1; fold me in H1; rewrite cnt_get_set_other in H1 by (intro E; apply Hne; now rewrite E);
+              destruct (c_mode (cx_callee cx CFunc)); destruct r; wnorm; try exact H1;
+              destruct (tok_args v) as [[a' k']|]; wnorm; try exact H1;
+              rewrite Hr; exact H1 ]
+    | solve [ destruct (c_mode (cx_callee cx CFunc)); wnorm; fold me; apply cnt_get_set_other; intro E; apply Hne; now rewrite E ] ].
   Qed.
 
   Lemma count_history : forall calls s,
@@ -599,7 +600,6 @@ Section Deprecated.
   Variable Sigma : Type.
   Variable cx : ctx Sigma.
   Hypothesis Hprog : cx_warn_prog cx = raise_warning_prog.
-  Hypothesis Hname : c_named (cx_callee cx CFunc) = true.       (* the message names the function *)
   (* the callee itself emits no DeprecationWarning *)
   Hypothesis Hcall : forall c a k s,
     n_deprecation (ws_log (ws (snd (c_call (cx_callee cx c) a k s)))) = n_deprecation (ws_log (ws s)).
@@ -696,11 +696,11 @@ Section ClassCall.
   Lemma class_call_transparent : forall n (cx : ctx Sigma) fn g m acc self cls0 sub a o,
     (n = NTrace \/ n = NTimer) ->
     awaited_if_coro fn = true -> behaves_as g fn ->
-    repr_harmless cx -> c_named fn = true ->
+    repr_harmless cx ->
     class_access_ok m acc = true -> orig_args m acc self cls0 sub a = Some o ->
     forall k, same_as_at (fun _ k c => g o k c) (class_call forall_cfg n cx fn m acc self cls0 sub) a k.
   Proof.
-    intros n cx fn g m acc self cls0 sub a o Hn Hwu Hsim Hrepr Hname Hok Ho k s.
+    intros n cx fn g m acc self cls0 sub a o Hn Hwu Hsim Hrepr Hok Ho k s.
     pose proof (class_routing_ok m acc self cls0 sub a Hok) as Hr. unfold class_transparent_at in Hr.
     rewrite Ho in Hr. unfold class_call.
     destruct (deco_args forall_cfg m acc self cls0 sub a) as [[pre given]|] eqn:Ed; [|contradiction].
@@ -709,13 +709,12 @@ Section ClassCall.
       by (cbn; now apply prepend_behaves).
     assert (Hwu2 : awaited_if_coro (cx_callee (with_callee cx (prepend pre fn)) CFunc) = true) by exact Hwu.
     assert (Hrepr2 : repr_harmless (with_callee cx (prepend pre fn))) by exact Hrepr.
-    assert (Hname2 : c_named (cx_callee (with_callee cx (prepend pre fn)) CFunc) = true) by exact Hname.
     assert (Hd : forall n, n = NTrace \/ n = NTimer ->
               exists w', use_wrapped (deco_of n) (with_callee cx (prepend pre fn)) given k s =
                          (fst (g (pre ++ given) k (cs s)), Build_st (snd (g (pre ++ given) k (cs s))) w')).
     { intros n' [->| ->]; cbn [deco_of]; unfold use_wrapped.
-      - apply (behaves_use _ _ _ (meets_trace _ _ _ Hwu2 Hs2 Hrepr2 Hname2) given k s).
-      - apply (behaves_use _ _ _ (meets_timer _ _ _ Hwu2 Hs2 Hname2) given k s). }
+      - refine (behaves_use _ (fun a' k' c => g (pre ++ a') k' c) _ _ given k s). apply meets_trace; assumption.
+      - refine (behaves_use _ (fun a' k' c => g (pre ++ a') k' c) _ _ given k s). apply meets_timer; assumption. }
     destruct (decorate_member forall_cfg m).
     - apply (behaves_use _ _ _ Hsim (pre ++ given) k s).
     - now apply Hd.
